@@ -225,8 +225,8 @@ MDisconnected ==
 
 MRet ==
   /\ pcM \in {"ret_ok", "ret_to", "ret_err", "ret_panic"}
-  /\ Ret(CASE pcM = "ret_ok" -> "ok" [] pcM = "ret_to" -> "timedout" [] pcM = "ret_panic" -> "panic" [] OTHER -> "oserr",
-         "out" \in Piped, outvec, "err" \in Piped, errvec, TRUE)
+  /\ RetS(CASE pcM = "ret_ok" -> "ok" [] pcM = "ret_to" -> "timedout" [] pcM = "ret_panic" -> "panic" [] OTHER -> "oserr",
+          "out" \in Piped, outvec, "err" \in Piped, errvec, TRUE, FALSE)   \* (the helpers read ahead: not strict)
   /\ pcM' = "idle" /\ ncalls' = ncalls + 1
   /\ UNCHANGED <<hst, hmsg, helperSet, leftover, outvec, errvec, hadTl, expiredSeen, rxAlive, recvAfter>>
 
